@@ -73,6 +73,10 @@ type c08Probe struct {
 
 func newC08Probe(t *rapid.T) *c08Probe {
 	p := &c08Probe{c: genC01Case(t, cfgOpts{}, specOpts{faults: true, viaAny: true, stack: false}, 2), sink: &memSink{}, hooks: new(int64), ehooks: new(int64)}
+	if p.c.cs.reflEnc != "default" && rapid.Bool().Draw(t, "htmlSensitiveReflect") {
+		// the probe's reflection encoder matters only for values with HTML-sensitive characters
+		p.c.site = append(p.c.site, &Spec{Kind: "reflect", Key: "html", V: map[string]string{"k": "<a&b>"}})
+	}
 	p.console = rapid.Bool().Draw(t, "console")
 	p.caller = rapid.Bool().Draw(t, "callerAndStack")
 	p.level = zapcore.Level(rapid.IntRange(-1, 5).Draw(t, "probeLevel"))
@@ -135,12 +139,19 @@ type c08History struct {
 	pools map[string]bool
 	big   bool
 	names []string
+	otherRefl bool
 }
 
-func genC08History(t *rapid.T, maxOps int, discard *memSink) *c08History {
+func genC08History(t *rapid.T, maxOps int, discard *memSink, probeCfg ...*cfgSpec) *c08History {
 	h := &c08History{pools: map[string]bool{}}
 	n := rapid.IntRange(1, maxOps).Draw(t, "nHistory")
 	cs2 := genCfgSpec(t, cfgOpts{})
+	if len(probeCfg) > 0 && probeCfg[0].reflEnc != "default" && rapid.Bool().Draw(t, "otherReflectedEncoder") {
+		// the other loggers use a reflection encoder built by the same constructor code as the probe's, with different captured state
+		cs2.reflEnc = map[string]string{"html": "nohtml", "nohtml": "html"}[probeCfg[0].reflEnc]
+		cs2.cfg.NewReflectedEncoder = mkReflectedEncoder(cs2.reflEnc == "html")
+		h.otherRefl = true
+	}
 	other := zap.New(zapcore.NewTee(
 		zapcore.NewCore(zapcore.NewJSONEncoder(cs2.cfg), discard, zapcore.DebugLevel),
 		zapcore.NewCore(zapcore.NewConsoleEncoder(cs2.cfg), discard, zapcore.DebugLevel),
@@ -154,6 +165,7 @@ func genC08History(t *rapid.T, maxOps int, discard *memSink) *c08History {
 			lvl := zapcore.Level(rapid.IntRange(-1, 2).Draw(t, "hLevel"))
 			msg := genStr().Draw(t, "hMsg")
 			fs := fieldsOf(genSpecs(t, 2, 4, so, "hFields"))
+			fs = append(fs, zap.Reflect("hr", map[string]string{"<k>": "&v"}))
 			h.ops = append(h.ops, func() { other.Log(lvl, msg, fs...) })
 			h.pools["json encoder"], h.pools["slice encoder"], h.pools["checked entry"], h.pools["stack"], h.pools["buffer"] = true, true, true, true, true
 		case "bigopen":
@@ -288,11 +300,11 @@ func propC08Sequential(t *rapid.T) {
 	defer runtime.GOMAXPROCS(old)
 	p := newC08Probe(t)
 	discard := &memSink{}
-	h := genC08History(t, 14, discard)
+	h := genC08History(t, 14, discard, p.c.cs)
 	// P is issued from ONE source line (the stack trace legitimately contains
 	// the caller's line), in a loop over the phases.
 	var base c08Obs
-	phases := []string{"first call", "after history", "after GC", "after second history"}
+	phases := []string{"first call", "after history", "after GC", "after second history", "after GC followed by history"}
 	for ph, name := range phases {
 		switch ph {
 		case 1, 3:
@@ -300,6 +312,11 @@ func propC08Sequential(t *rapid.T) {
 		case 2:
 			runtime.GC()
 			runtime.GC()
+		case 4:
+			// the pools are empty when the history runs: whatever it leaves behind is what P finds
+			runtime.GC()
+			runtime.GC()
+			h.run()
 		}
 		got := p.observe()
 		if ph == 0 {
